@@ -210,6 +210,16 @@ def judge(prop, rep, binary, scripts, work, replay, acc):
                 text = next((x["text"] for x in reversed(r[: r.index(e)]) if x["a"] == "Fresh"), None)
                 rep.violation("answer:semantic-tokens-not-in-utf16-units", {"tokens": True, "text_code_points": text, "script": scripts[ri] if ri < len(scripts) else None},
                               f"semanticTokens/full for a text opened in one didOpen: {e['tokBad']} token(s) start beyond / overlap / end beyond their line when read in UTF-16 code units")
+            if e["a"] == "Probe":
+                for who in ("renIncr", "renFresh"):
+                    acc["renames"] = acc.get("renames", 0) + (1 if e.get(who, -1) >= 0 else 0)
+                    if e.get(who, -1) > 0 and acc.setdefault("ren_reported", 0) < 20:
+                        acc["ren_reported"] += 1
+                        text = next((x["text"] for x in reversed(r[: r.index(e)]) if x["a"] == "Fresh"), None)
+                        rep.violation("answer:rename-edits-not-on-the-symbol", {"rename": True, "server": who, "probe": e, "text_code_points": text,
+                                                                               "script": scripts[ri] if ri < len(scripts) else None},
+                                      f"textDocument/rename of the marker variable ({'incremental' if who == 'renIncr' else 'fresh'} server): {e[who]} edit(s) are not "
+                                      "exactly a spelling of the symbol in the editor's text (UTF-16 columns)")
             if e["a"] == "Query":
                 acc["tok_bad"] = acc.get("tok_bad", 0) + (1 if e.get("tokBad", 0) > 0 else 0)
                 acc["per_kind"][e["kind"]] = acc["per_kind"].get(e["kind"], 0) + 1
@@ -274,6 +284,7 @@ def run(prop, tier, replay):
         "answers_compared_incremental_vs_fresh": acc["queries"],
         "answers_compared_per_kind": acc["per_kind"],
         "position_answers_checked_against_utf16_positions": acc["probes"],
+        "rename_answers_checked_for_placement": acc.get("renames", 0),
         "position_requests_unanswered": acc["unanswered"],
         "inconclusive_events": acc["inconclusive"],
         "panics_recorded": acc["panics"],
